@@ -15,7 +15,6 @@ Import ListNotations.
 Require Import VParse Py SpecModel SpecContains SetsModel Show.
 Open Scope N_scope.
 
-Inductive obj := OSpec (sp : specifier) (o : option bool) | OSet (S : sset).
 
 Definition parse_tri (s : list N) : option bool :=
   if seqb s [84] then Some true else if seqb s [70] then Some false else None.
@@ -41,6 +40,13 @@ Definition show_fout (kinds : list (list N)) (r : fout) : list N :=
   | FOk ps => join [46] (map (fun p => show_nat p ++ nth p kinds [63]) ps)
   | FBad => [69]
   | FEsc => [88]
+  end.
+Definition show_obs (kinds : list (list N)) (o : obs) : list N :=
+  match o with
+  | ObsNone => []
+  | ObsC r => show_outcome r
+  | ObsF r => asc "[" ++ show_fout kinds r ++ asc "]"
+  | ObsP p => show_tri p
   end.
 Definition bang_E := asc "!E".
 Definition bang_V := asc "!V".
@@ -101,35 +107,25 @@ Fixpoint exec (fuel : nat) (stack : list obj) (args : list (list N)) (out : list
         end
       else if seqb op (asc "P") then
         match rest, stack with
-        | o :: rest', OSet A :: st => exec fuel' (OSet (set_override A (parse_tri o)) :: st) rest' out
-        | o :: rest', OSpec sp _ :: st => exec fuel' (OSpec sp (parse_tri o) :: st) rest' out
+        | o :: rest', top :: st => exec fuel' (fst (step top (OpSet (parse_tri o))) :: st) rest' out
         | _, _ => bad_prog :: out
         end
       else if seqb op (asc "c") then
         match rest, stack with
-        | a :: i :: _ :: t :: rest', OSet A :: _ =>
-            exec fuel' stack rest' (show_outcome (set_contains A (parse_tri a) (parse_tri i) t) :: out)
-        | a :: _ :: _ :: t :: rest', OSpec sp o :: _ =>
-            exec fuel' stack rest' (show_outcome (contains sp o (parse_tri a) t) :: out)
+        | a :: i :: _ :: t :: rest', top :: _ =>
+            exec fuel' stack rest' (show_obs [] (snd (step top (OpContains (parse_tri a) (parse_tri i) t))) :: out)
         | _, _ => bad_prog :: out
         end
       else if seqb op (asc "in") then
         match rest, stack with
-        | _ :: t :: rest', OSet A :: _ => exec fuel' stack rest' (show_outcome (set_contains A None None t) :: out)
-        | _ :: t :: rest', OSpec sp o :: _ => exec fuel' stack rest' (show_outcome (contains sp o None t) :: out)
+        | _ :: t :: rest', top :: _ => exec fuel' stack rest' (show_obs [] (snd (step top (OpIn t))) :: out)
         | _, _ => bad_prog :: out
         end
       else if seqb op (asc "f") then
         match rest, stack with
         | a :: n :: rest', top :: _ =>
             let '(prs, rest'') := take_pairs (N.to_nat (parse_N n)) rest' in
-            let kinds := map fst prs in
-            let texts := map snd prs in
-            let r := match top with
-                     | OSet A => set_filter A (parse_tri a) texts
-                     | OSpec sp o => spec_filter sp o (parse_tri a) texts
-                     end in
-            exec fuel' stack rest'' ((asc "[" ++ show_fout kinds r ++ asc "]") :: out)
+            exec fuel' stack rest'' (show_obs (map fst prs) (snd (step top (OpFilter (parse_tri a) (map snd prs)))) :: out)
         | _, _ => bad_prog :: out
         end
       else if seqb op (asc "str") then
@@ -145,8 +141,7 @@ Fixpoint exec (fuel : nat) (stack : list obj) (args : list (list N)) (out : list
         end
       else if seqb op (asc "pre") then
         match stack with
-        | OSet A :: _ => exec fuel' stack rest (show_tri (set_pre A) :: out)
-        | OSpec sp o :: _ => exec fuel' stack rest (show_bool (effective_pre o sp) :: out)
+        | top :: _ => exec fuel' stack rest (show_obs [] (snd (step top OpPre)) :: out)
         | _ => bad_prog :: out
         end
       else if seqb op (asc "eq") then
